@@ -94,7 +94,7 @@ def real_parse_line(kind: str, payload: Any) -> str:
 PY_KEYWORDS = {'False', 'None', 'True', 'and', 'as', 'assert', 'async', 'await', 'break', 'class', 'continue', 'def', 'del', 'elif', 'else', 'except',
 	'finally', 'for', 'from', 'global', 'if', 'import', 'in', 'is', 'lambda', 'nonlocal', 'not', 'or', 'pass', 'raise', 'return', 'try', 'while', 'with', 'yield'}
 
-NAME_POOL = ['a', 'b', 'c', 'x', 'y', 'z', 'f', 'g', 'n', 'i', 'k', 'v', 'foo', 'bar', '_t', 'x1', 'Obj', 'self', 'cls', 'val', 'items', 'int', 'str']
+NAME_POOL = ['Falsey', 'True_', 'a', 'b', 'c', 'x', 'y', 'z', 'f', 'g', 'n', 'i', 'k', 'v', 'foo', 'bar', '_t', 'x1', 'Obj', 'self', 'cls', 'val', 'items', 'int', 'str']
 STRING_POOL = ["'s'", '"t"', "'a b'", '"x.y"', "''", '""', "'it\\'s'", '"q\\"r"', "'1'", '"k"', "'[0]'", '"(a, b)"', "'if'"]
 DIGIT_POOL = ['0', '1', '2', '7', '10', '42', '100']
 DECIMAL_POOL = ['0.5', '1.0', '2.25', '10.01', '0.0']
@@ -281,6 +281,25 @@ def tree_show(tree: Any) -> str:
 		key = sym[1] + (f'[{unwrap[1]}]' if unwrap[0] == 'unwrap' else '')
 		out.append(f'{hx(key)}={show(expr)}')
 	return ';'.join(out)
+
+
+def bad_leaf(tree: Any, grammar: dict[str, tuple[str, Any]]) -> tuple[str, str] | None:
+	"""First token leaf of an engine tree whose text its terminal rule cannot match, judged by the INDEPENDENT reading of the grammar
+	and the real `re.fullmatch` (a rule `name := /regexp/` or `name := "text"`); None if every leaf is fine."""
+	name, body = tree
+	if isinstance(body, str):
+		if name in grammar:
+			node = grammar[name][1]
+			if node[0] == 'rx' and re.fullmatch(node[1], body) is None:
+				return name, body
+			if node[0] == 'str' and node[1] != body:
+				return name, body
+		return None
+	for c in body:
+		r = bad_leaf(c, grammar)
+		if r:
+			return r
+	return None
 
 
 def lark_terminals(rules: dict[str, tuple[str, Any]]) -> tuple[list[str], list[str]]:
